@@ -103,7 +103,8 @@ fn bytes_of(l: &LayerRep) -> Vec<u8> {
             if l.variant == 0 {
                 v1::State::default().encode_to_vec()
             } else {
-                mk_state(&[(1, l.variant as f64)]).encode_to_vec()
+                // the only entry has id 0 (field 1 of the map entry is then absent on the wire)
+                mk_state(&[(0, l.variant as f64 + 0.5)]).encode_to_vec()
             }
         }
         _ => {
@@ -152,7 +153,13 @@ macro_rules! set_instance_like {
             "dataset" => $a.set_dataset(format!(" miplib-{}", $salt)),
             "variables" => $a.set_variables(12345 + $salt),
             "constraints" => $a.set_constraints(678 + $salt),
-            "other" => $a.set_other("org.example.key".to_string(), format!("user value, with comma {}", $salt)),
+            "other" => {
+                // set twice: the value that was set last is the value
+                $a.set_other("org.example.key".to_string(), "first value".to_string());
+                $a.set_other("org.example.key".to_string(), format!("user value, with comma {}", $salt));
+                // an empty value is a value
+                $a.set_other("org.example.empty".to_string(), String::new());
+            }
             _ => panic!("ENGINE: field"),
         }
     };
@@ -212,6 +219,9 @@ macro_rules! check_instance_like {
                 if $a.get("org.example.key").map(|s| s.as_str()) != Some(format!("user value, with comma {}", $salt).as_str()) {
                     $bad.push(format!("user key read back as {:?}", $a.get("org.example.key")));
                 }
+                if $a.get("org.example.empty").map(|s| s.as_str()) != Some("") {
+                    $bad.push(format!("user key with an empty value read back as {:?}", $a.get("org.example.empty")));
+                }
             }
             _ => panic!("ENGINE: field"),
         }
@@ -227,7 +237,11 @@ macro_rules! set_solution_like {
             "instance" => $a.set_instance(digest_of(0xab)),
             "solver" => $a.set_solver(digest_of(0x12)),
             "parameters" => $a.set_parameters(BTreeMap::from([("time_limit".to_string(), 1.5 + $salt as f64), ("seed".to_string(), 3.0)])).expect("ENGINE: set_parameters"),
-            "other" => $a.set_other("org.example.solver.note".to_string(), format!("note {}", $salt)),
+            "other" => {
+                $a.set_other("org.example.solver.note".to_string(), "first note".to_string());
+                $a.set_other("org.example.solver.note".to_string(), format!("note {}", $salt));
+                $a.set_other("org.example.empty".to_string(), String::new());
+            }
             _ => panic!("ENGINE: field"),
         }
     };
@@ -270,6 +284,9 @@ macro_rules! check_solution_like {
             "other" => {
                 if $a.get("org.example.solver.note").map(|s| s.as_str()) != Some(format!("note {}", $salt).as_str()) {
                     $bad.push(format!("user key read back as {:?}", $a.get("org.example.solver.note")));
+                }
+                if $a.get("org.example.empty").map(|s| s.as_str()) != Some("") {
+                    $bad.push(format!("user key with an empty value read back as {:?}", $a.get("org.example.empty")));
                 }
             }
             _ => panic!("ENGINE: field"),
